@@ -157,7 +157,7 @@ def run(ctx):
         ss = ('field', ('param', 'settings'), 'std_stream')
         v = strip_site(o.val)
         con = [e for e in o.st.ev if e[0] == 'call' and e[1].endswith('UnixStream::connect')]
-        none = next((t for a, t in pcs if a == ('is', ss, 'None')), None)
+        none = absx.pc_variant(pcs, lambda v: v == ss, 'None')
         if none is True:
             empty = next((t for a, t in pcs if a[0] == 'call' and a[1].endswith('::is_empty')), None)
             colon = next((t for a, t in pcs if a[0] == 'call' and a[1].endswith('::contains') and a[2][1] == ('lit', ':')), None)
